@@ -130,3 +130,24 @@ func init() {
 		},
 	}
 }
+
+func init() {
+	plans["C05"] = &plan{
+		level: "exploration",
+		rule: "Robust.tla states the outcome contract (answers | fail | error with an ISO formal term; never crash, hang, panic residue) and TLC enumerates the two input spaces: every sequence of <= NT token kinds out of 19 " +
+			"(so every truncation of every well-formed text of that size), each concretised with two sets of token texts, with and without separating layout, and handed to Query, Exec and read_term/2; and every tuple of 20 argument " +
+			"shapes for arities 0..3 (quick: 9 shapes for arity 3), near-uniform tuples for arities 4..8, each applied to EVERY registered predicate of that arity (list read from the code; halt/1 excluded). Cases run in worker " +
+			"sub-processes with a 64 MB stack limit: a dead worker is a crash, a call that does not return within 2 s a hang. distinct_nontrivial = distinct cases in which at least one call ended in an error",
+		assume: []string{"cyclic terms and inputs beyond the memory bound are excluded as the property says", "arbitrary byte strings are covered only through token sequences and their truncations, not enumerated byte-wise",
+			"file-touching predicates run in a scratch directory"},
+		trusted: []string{"TLC (enumeration)", "Robust.tla (contract and ISO formal list)", "the operating system reporting a dead worker process"},
+		run: func(c *checkCtx) {
+			r := c.mcHolds("Robust", "Robust_"+c.tier+".cfg", tlcOpts{})
+			tmp := filepath.Join(c.work, "scratch")
+			_ = os.MkdirAll(tmp, 0o755)
+			cases, results := c.replay("robust", r.cases, replayOpts{timeout: 120e9, opts: map[string]string{"tmp": tmp}, chunk: 4})
+			c.judge("robust", cases, results, func(cs, res map[string]J) string { in, _ := res["input"].(string); return in })
+			c.exhaustive = true
+		},
+	}
+}
